@@ -398,7 +398,7 @@ Proof.
       as (next2 & sums2 & oj' & ox' & Hemit & L1 & L2 & L3 & L4 & N1 & S1 & O1 & O2).
     { intros k Hk. specialize (HDlt k Hk). lia. }
     { lia. } { lia. } { lia. }
-    { fold (cnt i). lia. }
+    { change (lenN D) with (cnt i). lia. }
     { lia. }
     assert (Hem : em_of D (fun k => nthN sums1 k zero) = em i).
     { unfold em. fold D. apply em_of_ext. intros k Hk. apply Qg. specialize (HDlt k Hk). lia. }
@@ -413,7 +413,7 @@ Proof.
     + intros k Hk. rewrite N1. destruct (memN k D) eqn:Hm; [reflexivity|].
       apply Qe; [assumption|]. apply memN_false in Hm. unfold D in Hm. rewrite disc_in in Hm. exact Hm.
     + intros k Hk. rewrite S1. destruct (memN k D) eqn:Hm; [reflexivity|].
-      rewrite Qg by assumption. apply (csum_notin Ops Hsr).
+      rewrite Qg by assumption. apply csum_notin.
       apply memN_false in Hm. unfold D in Hm. rewrite disc_in in Hm. exact Hm.
     + intros r Hr. rewrite nthN_updn by lia.
       destruct (N.eqb_spec r (i + 1)) as [->|]; [exact Hnn|]. apply Ri. lia.
@@ -421,7 +421,7 @@ Proof.
       * destruct (O1 t Hlt) as (-> & _). apply Rj. exact Hlt.
       * unfold lenN in Ht. destruct (O2 (N.to_nat (t - nnz)) ltac:(lia)) as (Ho & _).
         replace (nnz + N.of_nat (N.to_nat (t - nnz))) with t in Ho by lia. rewrite Ho.
-        apply HDlt. apply (em_of_in D (fun k => csum k (items i))). apply nth_In. fold (em i). lia.
+        apply HDlt. apply (em_of_in D (fun k => csum k (items i))). apply nth_In. change (em_of D (fun k => csum k (items i))) with (em i). lia.
     + intros r t Hr Ht. destruct (N.eq_dec r i) as [->|Hne].
       * rewrite <- Rh. apply O2. exact Ht.
       * assert (Hlt : psum2 r + N.of_nat t < nnz).
